@@ -440,8 +440,14 @@ func (st *c44State) routes(name string) []string {
 }
 
 // owner returns which live claimant's chains the interface carries: index, or -1 nothing present, -2 present
-// but equal to no live claimant's rendering.
+// but equal to no live claimant's rendering. Admin-down endpoints all render the same chains, so several
+// claimants can match; the one the manager's own bookkeeping names is reported if it is among them.
 func (st *c44State) owner(name string) (int, string) {
+	o, _, d := st.owners(name)
+	return o, d
+}
+
+func (st *c44State) owners(name string) (int, []int, string) {
 	tmpl := st.render(name, -1, &c44Ep{name, true})
 	present := 0
 	for _, c := range tmpl {
@@ -450,8 +456,9 @@ func (st *c44State) owner(name string) (int, string) {
 		}
 	}
 	if present == 0 {
-		return -1, ""
+		return -1, nil, ""
 	}
+	var matches []int
 	for _, i := range st.claimants(name) {
 		want := st.render(name, i, st.live[i])
 		all := true
@@ -463,8 +470,18 @@ func (st *c44State) owner(name string) (int, string) {
 			}
 		}
 		if all {
-			return i, ""
+			matches = append(matches, i)
 		}
+	}
+	if len(matches) > 0 {
+		if id, ok := st.m.activeWlIfaceNameToID[name]; ok {
+			for _, i := range matches {
+				if c44IDs[i] == id {
+					return i, matches, ""
+				}
+			}
+		}
+		return matches[0], matches, ""
 	}
 	var sb strings.Builder
 	for _, c := range tmpl {
@@ -474,7 +491,7 @@ func (st *c44State) owner(name string) (int, string) {
 			fmt.Fprintf(&sb, "%s=<missing>; ", c.Name)
 		}
 	}
-	return -2, sb.String()
+	return -2, nil, sb.String()
 }
 
 func (st *c44State) envString() string {
@@ -572,7 +589,15 @@ func c44Check(st *c44State, hist []c44Ev) []hbfs.Fail {
 	active := map[types.WorkloadEndpointID]*proto.WorkloadEndpoint{}
 	for _, name := range c44Names {
 		cl := st.claimants(name)
-		own, detail := st.owner(name)
+		own, matches, detail := st.owners(name)
+		inMatches := func(i int) bool {
+			for _, x := range matches {
+				if x == i {
+					return true
+				}
+			}
+			return false
+		}
 		rts := st.routes(name)
 		if len(cl) == 0 {
 			if own != -1 {
@@ -618,11 +643,11 @@ func c44Check(st *c44State, hist []c44Ev) []hbfs.Fail {
 				add("routes-not-those-of-chain-owner", fmt.Sprintf("%s carries the chains of e%d (up) but routes are %v, want %v", name, own, rts, want))
 			}
 		}
-		if w, ok := ref.winners[name]; ok && w >= 0 && w != own {
+		if w, ok := ref.winners[name]; ok && w >= 0 && !inMatches(w) {
 			add("preferred-endpoint-depends-on-history", fmt.Sprintf("%s carries the state of e%d; a fresh manager given the same live endpoints prefers e%d", name, own, w))
 		}
 		// internal bookkeeping must agree with what was programmed
-		if id, ok := st.m.activeWlIfaceNameToID[name]; !ok || id != c44IDs[own] {
+		if id, ok := st.m.activeWlIfaceNameToID[name]; !ok || !inMatches(c44Index(id)) {
 			add("bookkeeping-disagrees-with-dataplane", fmt.Sprintf("%s carries e%d's chains but activeWlIfaceNameToID says %v (present=%v)", name, own, id, ok))
 		}
 	}
